@@ -65,15 +65,31 @@ def run(ctx):
     if not tables:
         ctx.viol("X1", iav, iav.node, "no skip table for the tree bookkeeping attributes found: parent/children links leak into exports",
                  construct="_iter_attr_values: skip table missing")
+    all_links = set(link_fields(p)) | set(memo_fields(p))
     for n, vals in tables:
-        if vals == want:
-            ctx.inst("X1", iav, n, "skip table equals NodeMixin's link fields %s" % sorted(want))
+        if vals == want or (want <= vals <= all_links):
+            ctx.inst("X1", iav, n, "skip table %s: the link fields (of NodeMixin, possibly of both mixins) and nothing else" % sorted(vals))
         else:
             ctx.viol("X1", iav, n, "skip table %s differs from NodeMixin's link fields %s: bookkeeping leaks into exports or a user "
                      "attribute is dropped" % (sorted(vals), sorted(want)))
     cfg = typer.cfg_of(iav)
     loops = [n for n in walk_own(iav.node) if isinstance(n, ast.For)]
-    ok_src = any(norm(l.iter) == "node.__dict__.items()" for l in loops)
+    def _src_ok(lp):
+        if norm(lp.iter) == "node.__dict__.items()":
+            return True
+        # `items` bound to node.__dict__.items() with a fall-back (slots) only in the AttributeError handler of that very read
+        if isinstance(lp.iter, ast.Name):
+            asg = [a_ for a_ in walk_own(iav.node) if isinstance(a_, ast.Assign) and any(isinstance(t_, ast.Name) and t_.id == lp.iter.id for t_ in a_.targets)]
+            main = [a_ for a_ in asg if norm(a_.value) == "node.__dict__.items()"]
+            rest = [a_ for a_ in asg if a_ not in main]
+            if len(main) == 1:
+                for t_ in walk_own(iav.node):
+                    if isinstance(t_, ast.Try) and any(x is main[0] for x in t_.body) and all(
+                            any(any(y is r_ for y in ast.walk(h_)) for h_ in t_.handlers if h_.type is not None and norm(h_.type) == "AttributeError") for r_ in rest):
+                        return True
+                return not rest
+        return False
+    ok_src = any(_src_ok(l) for l in loops)
     if ok_src:
         ctx.inst("X1", iav, loops[0], "iterates node.__dict__.items()")
     else:
